@@ -11,6 +11,8 @@ TITLE = "Format-constraint evaluation is Boolean and explains every failure"
 ENGINE = "e1-bounded-enumeration"
 
 BOUNDS = {"quick": [1, 2, 3, 4], "thorough": [1, 2, 3, 4, 5]}
+LONG = {"quick": [6, 10, 11, 12, 21], "thorough": [6, 7, 8, 9, 10, 11, 12, 13, 16, 20, 21, 22, 31, 33]}
+LONG_OPS = ["U", "O", "X", "UO", "OU", "XU", "UOX"]
 ORDER_EXPRS = ["[950]O([951]U[952])", "([952] X [950]) U [951]", "[951] U [952] O [950]"]
 BOOL = {"and_composition": lambda a, b: a and b, "or_composition": lambda a, b: a or b, "xor_composition": lambda a, b: a != b}
 
@@ -24,7 +26,9 @@ def describe(tier):
                 "present iff the result is unfulfilled; through evaluate_format_constraint_tree (messages supplied) and through "
                 "format_constraint_evaluation with a harness FcEvaluator whose evaluate methods return no message (default-message path), "
                 "sync and async evaluation methods, and (3 keys, all 8 assignments, 3 expressions) under ALL completion orders of "
-                "suspending evaluate_<key> coroutines on the virtual event loop; None and '' count as fulfilled; expressions with <= 3 leaves also through the library's DictBased / "
+                "suspending evaluate_<key> coroutines on the virtual event loop; None and '' count as fulfilled; "
+                f"flat chains with {LONG[tier]} key occurrences x operator patterns {LONG_OPS} (2 or 3 keys cycling under all assignments; all keys distinct under "
+                "all-true / all-false with <= 1 deviation: deviation-bounded, not all 2^L); expressions with <= 3 leaves also through the library's DictBased / "
                 "ContentEvaluationResultBased format constraint evaluators and user-style method based evaluators. Non-trivial = (expression, assignment) pairs with >= 2 "
                 "operators.",
         "bounds": {"leaves": BOUNDS[tier]},
@@ -42,6 +46,10 @@ def plan(tier, seed):
     for e in range(len(ORDER_EXPRS)):
         for bits in range(8):
             items.append({"fam": "orders", "expr": e, "bits": bits, "early": 0 if tier == "quick" else 1})
+    # long flat chains (many key occurrences): few keys cycling under all assignments; all-distinct keys deviation-bounded
+    for L in LONG[tier]:
+        for ops in range(len(LONG_OPS)):
+            items.append({"fam": "long", "L": L, "ops": ops, "seed": seed})
     for n in BOUNDS[tier]:
         parts = {1: 1, 2: 1, 3: 4, 4: 32, 5: 512}[n]
         for p in range(parts):
@@ -60,7 +68,31 @@ def _bool(tt, val):
     return BOOL[tt[0]](_bool(tt[1], val), _bool(tt[2], val))
 
 
-def check_expr(expr, only=None):
+def long_cases(L, ops, seed):
+    """(expression, assignments or None=all) for one chain length and operator pattern"""
+    sp = X.spelling(seed)
+    opname = {"U": "and", "O": "or", "X": "xor"}
+    pat = LONG_OPS[ops]
+    pool = [str(k) for k in range(901, 1000) if not 931 <= k <= 935]
+
+    def chain(keys):
+        s = f"[{keys[0]}]"
+        for i, k in enumerate(keys[1:]):
+            s += f" {sp[opname[pat[i % len(pat)]]]} [{k}]"
+        return s
+
+    for nk in (2, 3):
+        yield chain([pool[i % nk] for i in range(L)]), None
+    keys = pool[:L]
+    vals = []
+    for base in (True, False):
+        vals.append({k: base for k in keys})
+        for d in keys:
+            vals.append({k: (base if k != d else not base) for k in keys})
+    yield chain(keys), vals
+
+
+def check_expr(expr, only=None, vals_list=None):
     from mc.ref import condparse as R2
 
     I = X.init()
@@ -72,8 +104,9 @@ def check_expr(expr, only=None):
     ref = R2.parse(expr)  # the DOCUMENTED precedence (reference parser), independent of the implementation's tree
     keys = R3.keys_of(tt)
     n = 0
-    for vals in itertools.product((True, False), repeat=len(keys)):
-        val = dict(zip(keys, vals))
+    if only is not None and vals_list is None:
+        vals_list = [only]
+    for val in (vals_list if vals_list is not None else (dict(zip(keys, vals)) for vals in itertools.product((True, False), repeat=len(keys)))):
         if only is not None and val != only:
             continue
         exp = R2.to_bool(ref, val)
@@ -164,6 +197,19 @@ def run_item(item):
         return r
     if item["fam"] == "orders":
         return _run_orders(item, r)
+    if item["fam"] == "long":
+        for expr, vals in long_cases(item["L"], item["ops"], item["seed"]):
+            vs, n = check_expr(expr, vals_list=vals)
+            r.evaluations += n
+            r.states += n // 3
+            r.transitions += n
+            r.traces += 1
+            r.nontrivial += n // 3
+            r.stat("long_chain_executions", n)
+            for v in vs:
+                r.violation(v["kind"], v["case"], v["expected"], v["observed"], v["msg"])
+        r.sample({"expr": expr[:60] + "...", "L": item["L"]})
+        return r
     if item["fam"] == "modes":
         from mc import impl_modes as M
 
